@@ -12,43 +12,43 @@ import (
 // resolved to fixed-width PUSH2 operands.
 
 const (
-	opSTOP         = 0x00
-	opADD          = 0x01
-	opAND          = 0x16
-	opOR           = 0x17
-	opISZERO       = 0x15
-	opSHR          = 0x1c
-	opSHL          = 0x1b
-	opCALLER       = 0x33
-	opCALLDATALOAD = 0x35
-	opCALLDATASIZE = 0x36
-	opCALLDATACOPY = 0x37
-	opCODECOPY     = 0x39
+	opSTOP           = 0x00
+	opADD            = 0x01
+	opAND            = 0x16
+	opOR             = 0x17
+	opISZERO         = 0x15
+	opSHR            = 0x1c
+	opSHL            = 0x1b
+	opCALLER         = 0x33
+	opCALLDATALOAD   = 0x35
+	opCALLDATASIZE   = 0x36
+	opCALLDATACOPY   = 0x37
+	opCODECOPY       = 0x39
 	opRETURNDATASIZE = 0x3d
 	opRETURNDATACOPY = 0x3e
-	opPOP          = 0x50
-	opMLOAD        = 0x51
-	opMSTORE       = 0x52
-	opSLOAD        = 0x54
-	opSSTORE       = 0x55
-	opJUMP         = 0x56
-	opJUMPI        = 0x57
-	opGAS          = 0x5a
-	opJUMPDEST     = 0x5b
-	opPUSH1        = 0x60
-	opPUSH2        = 0x61
-	opPUSH20       = 0x73
-	opPUSH32       = 0x7f
-	opDUP1         = 0x80
-	opSWAP1        = 0x90
-	opLOG1         = 0xa1
-	opCALL         = 0xf1
-	opCALLCODE     = 0xf2
-	opRETURN       = 0xf3
-	opDELEGATECALL = 0xf4
-	opSTATICCALL   = 0xfa
-	opREVERT       = 0xfd
-	opINVALID      = 0xfe
+	opPOP            = 0x50
+	opMLOAD          = 0x51
+	opMSTORE         = 0x52
+	opSLOAD          = 0x54
+	opSSTORE         = 0x55
+	opJUMP           = 0x56
+	opJUMPI          = 0x57
+	opGAS            = 0x5a
+	opJUMPDEST       = 0x5b
+	opPUSH1          = 0x60
+	opPUSH2          = 0x61
+	opPUSH20         = 0x73
+	opPUSH32         = 0x7f
+	opDUP1           = 0x80
+	opSWAP1          = 0x90
+	opLOG1           = 0xa1
+	opCALL           = 0xf1
+	opCALLCODE       = 0xf2
+	opRETURN         = 0xf3
+	opDELEGATECALL   = 0xf4
+	opSTATICCALL     = 0xfa
+	opREVERT         = 0xfd
+	opINVALID        = 0xfe
 )
 
 type asmItem struct {
